@@ -11,7 +11,7 @@ COMBOS = [(1, 1), (2, 1), (3, 1), (1, 2), (2, 2), (3, 2), (2, 3), (3, 3)]
 def main(tier, seed, replay=None):
     run = Run("C12", tier, seed, "proof")
     rng = random.Random(seed)
-    proof_obligations(run, "C12")
+    proof_obligations(run, "C12", extra_pins=("E2E",))
     workdir = os.path.join(COQ, "run", "C12")
     cases = []
     k = 0
